@@ -341,6 +341,107 @@ Qed.
 Lemma init_dinv bs : dinv (init_st 0 [] bs).
 Proof. constructor; simpl; auto. intros t. split; [reflexivity|intros; discriminate]. Qed.
 
+(* ====================================================================== *)
+Lemma lext_refl l : lext l l.
+Proof. induction l; constructor; auto. apply vext_refl. Qed.
+
+Lemma list_set_nth {V} i (v : V) l : nth_error l i = Some v -> list_set i v l = l.
+Proof.
+  revert i. induction l; intros i H; destruct i; simpl in *; try discriminate; auto.
+  - inv H. reflexivity.
+  - rewrite IHl; auto.
+Qed.
+
+(* fields that read the same everywhere extend each other *)
+Lemma fext_same_lookup f f' : (forall t, alookup t f' = alookup t f) ->
+  forall t v, alookup t f = Some v -> exists v', alookup t f' = Some v' /\ vext v v'.
+Proof. intros H t v E. rewrite H. eexists. split; eauto. apply vext_refl. Qed.
+
+Lemma aupd_same_lookup {V} t (v : V) f : alookup t f = Some v -> forall t', alookup t' (aupd t v f) = alookup t' f.
+Proof.
+  intros E t'. rewrite alookup_dec. destruct (t' =? t) eqn:Et; auto. apply Z.eqb_eq in Et. subst. auto.
+Qed.
+
+Definition no_computed (o : op) : Prop := match o with OComputed _ _ => False | _ => True end.
+
+Lemma ser_prim_root D k t s v s' : ser_prim D k t s = Ok (v, s') -> root s' = root s.
+Proof.
+  intros H. unfold ser_prim in H. apply rbind_ok in H. destruct H as ([v1 s1] & H1 & H).
+  apply rbind_ok in H. destruct H as (w & _ & H). inv H.
+  apply ser_get_spec in H1.
+  destruct H1 as [(_ & -> & _) | (i & l & _ & _ & [[_ ->] | (_ & _ & ->)])]; reflexivity.
+Qed.
+
+Lemma ser_enter_ext t s s' : wf s -> subcontext_enter t s = Ok s' -> vext (root s) (root s').
+Proof.
+  intros W H. pose proof (wf_nh _ W) as Nf.
+  unfold subcontext_enter in H. apply rbind_ok in H. destruct H as ([[v lc] s1] & H1 & H).
+  destruct v as [| | | | |cty cf|]; try discriminate. inv H.
+  apply setdefault_spec in H1.
+  destruct H1 as [(E & -> & [[F ->] | (F & Hv & ->)]) | (i & l & E & F & -> & [(-> & Hv & ->) | (N & ->)])];
+    unfold root; simpl.
+  - rewrite plug_aupd, plug_nohole by auto. cbn [plug1].
+    apply root_with_ext. apply vext_dict. apply fext_same_lookup. apply aupd_same_lookup; auto.
+  - inv Hv. rewrite aupd_aupd, plug_aupd, plug_nohole by auto. cbn [plug1].
+    apply root_with_ext. apply vext_dict. apply fext_fresh; auto.
+  - inv Hv. assert (Nl : Forall nohole l) by (apply nohole_VL; exact (nohole_f_lookup _ _ _ Nf F)).
+    rewrite alookup_aupd_same, aupd_aupd, list_set_app_last, plug_aupd, plug_nohole by auto. cbn [plug1].
+    rewrite map_app, map_hole_id by auto. cbn [map].
+    apply root_with_ext. apply vext_dict. apply fext_append; auto.
+  - assert (Nl : Forall nohole l) by (apply nohole_VL; exact (nohole_f_lookup _ _ _ Nf F)).
+    rewrite F, plug_aupd, plug_nohole by auto. cbn [plug1]. rewrite map_hole_list_set by auto.
+    rewrite (list_set_nth _ _ _ N).
+    apply root_with_ext. apply vext_dict. apply fext_same_lookup. apply aupd_same_lookup; auto.
+Qed.
+
+Lemma ser_declare_ext t s s' : declare_list t s = Ok s' -> vext (root s) (root s').
+Proof.
+  unfold declare_list. destruct (alookup t (c_ix s)); [discriminate|].
+  destruct (alookup t (c_f s)) as [[| | | |l| |]|] eqn:F; try discriminate; intros H; inv H; unfold root; simpl.
+  - apply vext_refl.
+  - apply root_with_ext. apply vext_dict. apply fext_fresh; auto.
+Qed.
+
+Theorem ser_step_extends D o s r s' :
+  no_computed o -> wf s -> ser_step D o s = Ok (r, s') -> vext (root s) (root s').
+Proof.
+  intros Hn W H. unfold ser_step in H.
+  destruct o; simpl in H; try contradiction;
+    try (rewrite (ser_prim_root _ _ _ _ _ _ H); apply vext_refl).
+  - apply unitr_ok in H. destruct H as (v & H). rewrite (ser_prim_root _ _ _ _ _ _ H). apply vext_refl.
+  - destruct (rem (sio s)); inv H. apply vext_refl.
+  - destruct (rem (sio s)); [|discriminate]. apply unitr_ok in H. destruct H as (v & H).
+    rewrite (ser_prim_root _ _ _ _ _ _ H). apply vext_refl.
+  - apply unitst_ok in H. eapply ser_declare_ext; eauto.
+  - apply unitst_ok in H. eapply ser_enter_ext; eauto.
+  - apply unitst_ok in H. unfold subcontext_leave in H. apply rbind_ok in H. destruct H as (u & _ & H).
+    destruct (stk s) as [|fr rest] eqn:Es; [discriminate|]. inv H. unfold root. rewrite Es. apply vext_refl.
+  - apply unitst_ok in H. rewrite set_context_type_wf in H by auto. inv H.
+    unfold root. simpl. apply root_with_ext. apply vext_dict. intros t v E. eexists. split; eauto. apply vext_refl.
+  - apply rbind_ok in H. destruct H as (b & _ & H). inv H. apply vext_refl.
+Qed.
+
+Inductive computed_free {A} : prog A -> Prop :=
+| cf_ret a : computed_free (Ret a)
+| cf_op o k : no_computed o -> (forall r, computed_free (k r)) -> computed_free (Op o k).
+
+Lemma computed_free_ok A (p : prog A) : computed_free p -> prog_ok p.
+Proof. induction 1 as [|o k Hn Hk IH]; constructor; auto. destruct o; simpl in *; auto; contradiction. Qed.
+
+(* for programs without computed values the serialiser's final description extends, value by value,
+   the description it was given (it may have created empty lists / dictionaries and set types) *)
+Theorem ser_extends_input D A (p : prog A) : computed_free p ->
+  forall s a s', wf s -> run (ser_step D) p s = Ok (a, s') -> vexts (root s) (root s').
+Proof.
+  induction 1 as [a0 | o k Hn Hk IH]; intros s a s' W H; simpl in H.
+  - inv H. apply vexts_refl.
+  - apply rbind_ok in H. destruct H as ([r s1] & Hs & Hr).
+    assert (W1 : wf s1).
+    { eapply (step_wf (ser_prim D)); [|exact W| |exact Hs]. intros; eapply ser_prim_wf; eauto.
+      destruct o; simpl in *; auto; contradiction. }
+    eapply vexts_step; [eapply ser_step_extends; eauto|]. eapply IH; eauto.
+Qed.
+
 
 (* ---- corollaries / packaging for Props/C21.v ---- *)
 Lemma set_value_reused : forall t v s,
@@ -395,4 +496,10 @@ Proof.
   destruct r0 as [z| | | | | |]; try apply sym_ret.
   destruct z as [|[[|[]|]|[|[]|]|]|]; try apply sym_ret.
   apply sym_op; [exact I | simpl; auto | intros; apply sym_ret | intros; reflexivity].
+Qed.
+
+Corollary ser_keeps_input D A (p : prog A) ty f a s' :
+  computed_free p -> nohole (VC ty f) -> run_ser D p ty f = Ok (a, s') -> vexts (VC ty f) (root s').
+Proof.
+  intros Hc Hn Hr. apply (ser_extends_input D A p Hc (init_st ty f []) a s'); auto. apply init_wf; auto.
 Qed.
